@@ -213,6 +213,36 @@ def check_graph(schema, files, main="a.conf", validator=False, schema_xml=None):
                     elif err.getvalue() != "".join(expected_msgs):
                         out.append(("validator:wrong-messages", "stderr %r expected %r"
                                     % (err.getvalue()[:300], "".join(expected_msgs)[:300])))
+                # no file argument: the one configuration is read from standard input (a pipe)
+                import sys as _sys
+                first = names[0]
+                with open(paths[0], encoding="utf-8") as f:
+                    piped = io.StringIO(f.read())
+                try:
+                    ZConfig.loadConfigFile(vschema, io.StringIO(piped.getvalue()))
+                    want1 = 0
+                except ZConfig.ConfigurationError:
+                    want1 = 1
+                except Exception:  # noqa
+                    want1 = None
+                # %include lines are relative to a resource without URL here: only self-contained texts
+                if want1 is not None and "%include" not in piped.getvalue():
+                    old_stdin = _sys.stdin
+                    err = io.StringIO()
+                    try:
+                        _sys.stdin = piped
+                        with contextlib.redirect_stderr(err), contextlib.redirect_stdout(io.StringIO()):
+                            rc = ZConfig.validator.main(["-s", spath])
+                        if rc != want1:
+                            out.append(("validator:stdin:wrong-status", "returned %r expected %r for %s" % (rc, want1, first)))
+                        elif (rc == 1) != bool(err.getvalue().strip()):
+                            out.append(("validator:stdin:wrong-messages", repr(err.getvalue()[:200])))
+                    except SystemExit as e:
+                        out.append(("validator:stdin:SystemExit", repr(e.code)))
+                    except Exception as e:  # noqa
+                        out.append(("validator:stdin:raises:%s" % type(e).__name__, str(e)[:200]))
+                    finally:
+                        _sys.stdin = old_stdin
     finally:
         shutil.rmtree(root, ignore_errors=True)
     return status, out
